@@ -1,7 +1,7 @@
 """Shared machinery of the property checks: MIR dump -> parallel symbolic exploration by input slices ->
 per-leaf solver obligations -> native replay of counterexamples -> known-findings triage -> evidence file.
 
-Exit status convention (DESIGN §1.4): 0 = held on everything explored (possibly with KNOWN-FINDING lines),
+Exit status convention (DESIGN §1.5): 0 = held on everything explored (possibly with KNOWN-FINDING lines),
 1 = at least one reproduced violation not listed in known_findings.jsonl, 2 = inconclusive (encoder gap,
 non-reproducing counterexample, solver timeout): never reported as success.
 """
@@ -22,7 +22,7 @@ from mirsym import loader, validate                      # noqa: E402
 from mirsym.execu import ExecError, Program, Executor     # noqa: E402
 from mirsym.values import *                               # noqa: E402,F401
 from mirsym import builtins as _b                         # noqa: E402
-from mirsym import deku_bi, fmt_bi, float_bi, coll_bi     # noqa: E402,F401
+from mirsym import deku_bi, fmt_bi, float_bi, coll_bi, iter_bi, std_bi     # noqa: E402,F401
 
 SEED = int(os.environ.get('VERIF_SEED', '0') or 0)
 NPROC = int(os.environ.get('VERIF_JOBS', '16'))
@@ -33,6 +33,68 @@ KNOWN = os.path.join(ROOT, 'known_findings.jsonl')
 
 class Inconclusive(Exception):
     pass
+
+
+# ------------------------------------------------------------------------------------ second solver
+# Every VERIF_CROSSCHECK_EVERY-th `unsat` verdict of the Prover is re-decided by cvc5 on the SMT-LIB2 text of the
+# same query (DESIGN §1.4).  A `sat` answer from cvc5 makes the whole check INCONCLUSIVE (solvers disagree).
+CROSS_EVERY = int(os.environ.get('VERIF_CROSSCHECK_EVERY', '0') or 0)
+CROSS_TLIMIT_MS = int(os.environ.get('VERIF_CROSSCHECK_TLIMIT_MS', '20000'))
+CROSS = {'checked': 0, 'agree': 0, 'disagree': 0, 'undecided': 0, 'time_s': 0.0, 'disagreements': []}
+_cross_n = [0]
+
+
+def cross_check(assertions, tag=''):
+    """assertions: z3 Boolean terms whose conjunction z3 found unsat.  Ask cvc5."""
+    import subprocess
+    s = z3.Solver()
+    for a in assertions:
+        s.add(a)
+    txt = '(set-logic ALL)\n' + s.to_smt2()
+    t = time.time()
+    try:
+        p = subprocess.run(['cvc5', '--lang', 'smt2', '--tlimit=%d' % CROSS_TLIMIT_MS], input=txt, text=True,
+                           stdout=subprocess.PIPE, stderr=subprocess.STDOUT, timeout=CROSS_TLIMIT_MS / 1000 + 20)
+        out = p.stdout.strip().splitlines()
+    except Exception as e:     # noqa
+        out = ['error: %r' % (e,)]
+    CROSS['time_s'] += time.time() - t
+    CROSS['checked'] += 1
+    verdict = out[0].strip() if out else ''
+    if any('(error' in ln or ln.startswith('error') for ln in out):
+        verdict = 'error'
+    if verdict == 'unsat':
+        CROSS['agree'] += 1
+    elif verdict == 'sat':
+        CROSS['disagree'] += 1
+        os.makedirs(OUT, exist_ok=True)
+        path = os.path.join(OUT, 'disagree_%d_%d.smt2' % (os.getpid(), CROSS['disagree']))
+        open(path, 'w').write(txt)
+        CROSS['disagreements'].append({'tag': tag, 'smt2': path})
+    else:
+        CROSS['undecided'] += 1
+    return verdict
+
+
+def _cross_maybe(assertions, tag=''):
+    if not CROSS_EVERY:
+        return
+    _cross_n[0] += 1
+    if _cross_n[0] % CROSS_EVERY == 0:
+        cross_check(assertions, tag)
+
+
+def cross_snapshot():
+    d = {k: CROSS[k] for k in ('checked', 'agree', 'disagree', 'undecided', 'time_s')}
+    d['disagreements'] = list(CROSS['disagreements'])
+    return d
+
+
+def cross_delta(before):
+    now = cross_snapshot()
+    d = {k: now[k] - before[k] for k in ('checked', 'agree', 'disagree', 'undecided', 'time_s')}
+    d['disagreements'] = now['disagreements'][len(before['disagreements']):]
+    return d
 
 
 # ------------------------------------------------------------------------------------ frame bits
@@ -154,8 +216,11 @@ def _worker_run(job):
     if log:
         open(log, 'a').write('START %s\n' % ({k: v for k, v in job.items() if not str(k).startswith('files')},))
     try:
+        cs = cross_snapshot()
         res = _W['check'].run_job(_W['prog'], job)
         res['wall_s'] = time.time() - t0
+        if CROSS_EVERY:
+            res['crosscheck'] = cross_delta(cs)
         res['job'] = job
         if log:
             open(log, 'a').write('DONE %.1fs %s\n' % (time.time() - t0, {k: v for k, v in job.items() if not str(k).startswith('files')}))
@@ -288,6 +353,7 @@ class Prover:
             if rb == z3.unsat:
                 self.valid[key] = claim
                 self.solver_s += time.time() - t
+                _cross_maybe(list(self.base.assertions()) + [z3.Not(claim)], 'base')
                 if count:
                     self.discharged += 1
                 return None
@@ -302,6 +368,7 @@ class Prover:
         if r == z3.unsat:
             if count:
                 self.discharged += 1
+            _cross_maybe(list(self.s.assertions()) + [z3.Not(claim)], 'path')
             return None
         if r == z3.sat:
             return m
@@ -434,12 +501,15 @@ def finish(prop, tier, t0, results, coverage, assumptions, level='model_checking
     reported = []
     status = 0
     seen_roles = {}
+    groups = {}
     for v in violations:
         seen_roles.setdefault(v['role'], []).append(v)
+        # counterexamples attributed to a known input class are triaged separately from the others of the same role
+        groups.setdefault((v['role'], v.get('known_id') or ''), []).append(v)
     n_viol = 0
     lines = []
     known_seen = {}
-    for role, vs in sorted(seen_roles.items()):
+    for (role, kid_), vs in sorted(groups.items()):
         v = vs[0]
         ok = None
         if replay_fn is not None:
@@ -450,7 +520,7 @@ def finish(prop, tier, t0, results, coverage, assumptions, level='model_checking
                 v['replay_error'] = repr(e)
         v['reproduced'] = ok
         kf = [k for k in known if k.get('status') == 'known' and role_matches(k.get('role'), role)
-              and (not k.get('excuse') or any(x.get('known_id') == k.get('id') for x in vs))]
+              and (not k.get('excuse') or k.get('id') == kid_)]
         if ok is False or ok is None:
             inconclusive.append({'inconclusive': 'counterexample for role %s did not reproduce natively (%r)' % (role, v.get('replay_error')),
                                  'job': v.get('job')})
@@ -480,6 +550,21 @@ def finish(prop, tier, t0, results, coverage, assumptions, level='model_checking
         if status == 0:
             status = 2
     cov = dict(coverage)
+    cc = [r['crosscheck'] for r in results if r.get('crosscheck')]
+    if cc:
+        tot = {k: sum(c[k] for c in cc) for k in ('checked', 'agree', 'disagree', 'undecided')}
+        tot['time_s'] = round(sum(c['time_s'] for c in cc), 1)
+        tot['every'] = CROSS_EVERY
+        tot['solver'] = 'cvc5 1.0.3 on the SMT-LIB2 text of every %d-th unsat verdict of z3' % CROSS_EVERY
+        dis = [d for c in cc for d in c['disagreements']]
+        if dis:
+            tot['disagreements'] = dis[:10]
+            inconclusive.append({'inconclusive': 'z3 and cvc5 disagree on %d queries, e.g. %s' % (len(dis), dis[0]['smt2'])})
+            for r in inconclusive[-1:]:
+                print('INCONCLUSIVE: %s' % r['inconclusive'], file=sys.stderr)
+            if status == 0:
+                status = 2
+        cov['second_solver'] = tot
     cov.setdefault('violations_by_role', {k: len(v) for k, v in seen_roles.items()})
     cov['known_findings_seen'] = {k: v[3] for k, v in known_seen.items()}
     ev = {
